@@ -21,7 +21,7 @@ def event_order(sx, p):
     sched, rec = P.run_scenario(sx, proto, transport)
     if sched['stage'] == 'unserializable' and P.out_of(proto) in ('json', 'jsonp'):
         sx.outside('unserialisable return values are only in scope for the eagerly serialising XML protocols')
-    problems = O.check_events(sched, rec, judge_unserialisable_exception_object=False)
+    problems = O.check_events(sched, rec, judge_unserialisable_exception_object=(transport != 'server'))
     sx.observe('problems', problems)
     return not problems
 
